@@ -26,7 +26,7 @@ ASSUMPTIONS = [
     'custom handlers do not mutate the row; transforms are pure',
 ]
 BUDGET = {'quick': dict(examples=2400, shards=8, seconds=70),
-          'thorough': dict(examples=60000, shards=16, seconds=1200)}
+          'thorough': dict(examples=200000, shards=16, seconds=1200)}
 
 TARGETS = [
     ({'type': 'integer'}, ['0', '12', '-3', '007', 5, -2, 'x', '1.5', '', '1e3', ' 4', None, True, '٣']),
